@@ -271,7 +271,7 @@ def load(repo=None, rebuild=False, quiet=False):
     try:
         key = tree_hash(repo)
         tag = hashlib.sha256(os.path.abspath(repo).encode()).hexdigest()[:8]
-        pk = os.path.join(CACHE, 'facts-%s-%s.pickle' % (tag, key))
+        pk = os.path.join(CACHE, 'facts-%s-%s.v2.pickle' % (tag, key))
         if os.path.exists(pk) and not rebuild:
             with open(pk, 'rb') as f:
                 bodies = pickle.load(f)
@@ -282,6 +282,7 @@ def load(repo=None, rebuild=False, quiet=False):
             emit_mir(repo, out, log=os.path.join(CACHE, 'build-%s.log' % tag))
             bodies = mir.parse_file(out)
             mir.canonicalise(bodies, repo)
+            mir.resolve_const_operands(bodies, repo)
             for old in glob.glob(os.path.join(CACHE, 'facts-%s-*.pickle' % tag)):
                 os.unlink(old)
             sys.setrecursionlimit(100000)
@@ -294,6 +295,7 @@ def load(repo=None, rebuild=False, quiet=False):
         fcntl.flock(lock, fcntl.LOCK_UN)
         lock.close()
     prog = Program(bodies, repo, key)
+    prog.consts = getattr(bodies, 'consts', None) or {}
     prog.built = built
     # fail-closed sanity floors
     nfn = len([b for b in bodies if b.promoted is None])
